@@ -822,7 +822,10 @@ def write_pam(matrix, matrix_size, out, scale=1, border=None, dark='#000', light
     colours = None
     if not is_rgb and transparency:
         depth = 2
-        colours = (b'\x01\x00', b'\x00\x01')
+        colours = (b'\x01\x00', pack('>2B', _color_is_white(stroke_color), 1))
+    elif not is_rgb:
+        # BLACKANDWHITE: 1 = white, 0 = black
+        colours = (pack('>B', _color_is_white(bg_color)), pack('>B', _color_is_white(stroke_color)))
     elif is_rgb:
         maxval = max(chain(stroke_color, bg_color))
         depth = 3 if not transparency else 4
